@@ -525,6 +525,38 @@ func bigCases(r *vm.Rand) []*rcase {
 			}}, input: enc(pk.String(strings.Repeat("s", n)))},
 		)
 	}
+	// frames whose length prefix takes three bytes, plain and through the compression layer (incompressible and
+	// compressible content), by Packet.UnPack and by a Conn
+	for _, fc := range []struct {
+		n, th int
+		fill  bool
+	}{{70000, -1, false}, {70000, 256, false}, {150000, 256, true}, {20000, 0, true}} {
+		fc := fc
+		p := pk.Packet{ID: int32(r.Intn(300)), Data: r.Bytes(fc.n)}
+		if fc.fill {
+			for i := range p.Data {
+				p.Data[i] = byte(i % 5)
+			}
+		}
+		var b bytes.Buffer
+		p.Pack(&b, fc.th)
+		in := append(b.Bytes(), 0x05, 0x01, 0x02) // something follows the frame
+		sum := func(q pk.Packet) string { return fmt.Sprintf("%d: %d bytes, fnv %016x", q.ID, len(q.Data), vm.Hash64(q.Data)) }
+		rcs = append(rcs,
+			&rcase{op: rop{name: fmt.Sprintf("Packet.UnPack(%d bytes, threshold=%d)", fc.n, fc.th), run: func(rd io.Reader) (string, int64, error) {
+				var q pk.Packet
+				err := q.UnPack(rd, fc.th)
+				return sum(q), -1, err
+			}}, input: in},
+			&rcase{op: rop{name: fmt.Sprintf("Conn.ReadPacket(%d bytes, threshold=%d)", fc.n, fc.th), run: func(rd io.Reader) (string, int64, error) {
+				conn := mcnet.WrapConn(&rconConn{r: rd, w: io.Discard})
+				conn.SetThreshold(fc.th)
+				var q pk.Packet
+				err := conn.ReadPacket(&q)
+				return sum(q), -1, err
+			}}, input: in},
+		)
+	}
 	return rcs
 }
 
